@@ -170,10 +170,10 @@ fn scenario(kinds: &[Kind], m: usize, jitter: u64) -> ScenarioResult {
             res.inconclusive = Some("sibling did not finish its sends".into());
         }
     }
-    let w = rec::wait_quiescent(recv.tracer, total, Duration::from_secs(20));
+    let w = rec::wait_quiescent(recv.tracer, total, crate::session::wd(Duration::from_secs(20)));
     let complete = w == Wait::Idle;
     recv.send("stop");
-    let finished = rec::wait_finished(recv.tracer, Duration::from_secs(20));
+    let finished = rec::wait_finished(recv.tracer, crate::session::wd(Duration::from_secs(20)));
     for s in siblings.iter_mut() {
         s.finish();
     }
@@ -317,11 +317,16 @@ pub fn run(args: &Args, rep: &mut Report) {
     let runs = args.scale(14, 300);
     let mut interleavings = std::collections::BTreeSet::new();
     for r in 0..runs {
-        let n = *rng.pick(&[2usize, 3, 4, 8]);
-        let m = *rng.pick(&[20usize, 50, 120, if args.thorough() { 1000 } else { 200 }]);
+        let mut n = *rng.pick(&[2usize, 3, 4, 8]);
+        let mut m = *rng.pick(&[20usize, 50, 120, if args.thorough() { 1000 } else { 200 }]);
+        if args.miri() {
+            // every Miri seed is a different schedule: small scenario, many seeds
+            n = 2 + (args.seed as usize + args.shard) % 2;
+            m = 4;
+        }
         let mut kinds = Vec::new();
         for k in 0..n {
-            kinds.push(match (k + r) % 4 {
+            kinds.push(match (k + r + if args.miri() { args.seed as usize + args.shard } else { 0 }) % 4 {
                 0 => Kind::HostSender,
                 1 => Kind::Sibling,
                 2 => Kind::HostExecutor,
